@@ -91,6 +91,8 @@ func (c *HeartbeatManager) StartHeartbeat() error {
 	// stop an already running heartbeat
 	c.StopHeartbeat()
 
+	verifYield("StartHeartbeat.afterStop")
+
 	c.stopHeartbeatC = make(chan struct{})
 
 	go c.updateHeartbeatData(c.stopHeartbeatC, timeout)
@@ -102,6 +104,7 @@ func (c *HeartbeatManager) StartHeartbeat() error {
 // Note: No active subscribers will get any further notifications!
 func (c *HeartbeatManager) StopHeartbeat() {
 	if c.IsHeartbeatRunning() {
+		verifYield("StopHeartbeat.afterCheck")
 		close(c.stopHeartbeatC)
 	}
 }
